@@ -558,8 +558,10 @@ class Producer(object):
                 fail_on_error=False,
             )
             self._req_attempts += 1
-            # add our handlers
-            d.addBoth(self._handle_send_response, payloadsByTopicPart, deferredsByTopicPart)
+            # add our handlers. Only the payloads of this attempt can fail (or
+            # be retried) from here on: the others have been acknowledged.
+            retried = {tp: p for tp, p in payloadsByTopicPart.items() if p in payloads}
+            d.addBoth(self._handle_send_response, retried, deferredsByTopicPart)
             return d
 
         def _cancel_retry(failure, dc):
